@@ -136,7 +136,7 @@ for _p in ("C01", "C02"):
 # verify_response) from wasm.rs on every run; C03.reply_rule_as_modelled / reply_on_*_is_source_rule and C13.validation_steps_as_modelled
 for _p, _what in (("C03", "the reply rule of execute_submsg (reply_on variants per outcome, Reply literal, treatment of data/events)"),
                   ("C13", "the steps of verify_attributes / verify_response (what is trimmed, which conditions bail, over which parts)")):
-    PROPS[_p]["translators"] = list(PROPS[_p].get("translators", [])) + ["tr_rules"]
+    PROPS[_p]["translators"] = list(PROPS[_p].get("translators", [])) + [{"C03": "tr_rules_reply", "C13": "tr_rules_verify"}[_p]]
     PROPS[_p]["technique"] += " + table of " + _what + " regenerated from wasm.rs on every run and proved to be the rule the model transcribes"
     PROPS[_p]["trusted_base"] = list(PROPS[_p].get("trusted_base", [])) + [
         "checklib/tr_rules.py (regex + bracket matching) extracts " + _what + "; that the model's functions implement the tabled steps is by "
